@@ -95,8 +95,13 @@ def run_dopt(ctx, count, seed, modes=(0, 16)):
     lines = common.corpus(ctx.prop, ("DO ",))
     for m in modes:
         lines += common.harness_gen(harness, ["rand", seed + m, count // len(modes), m])
+    # stress streams (checks/stress_streams.py): circuits TRANSLATED to 2^24 + odd .. +-(2^30 - small) in x and / or y (no shift op:
+    # lemon is never driven there) and designed wide rows driven with reordering windows of 6..8 cells (up to 8! orderings per window)
+    from checks import stress_streams as ss
+    sbig, swide, sinfo = ss.extra_lines(harness, "DO", seed, count // 10, max(4, count // 500), ["rand", seed + 977, count // 5, 0])
+    lines += sbig + swide
     impl, _, _ = common.run_both([harness, "run"], None, lines, chunk=300, timeout=300)
-    res = {"runs": len(lines), "ops": 0, "best_ops": 0, "pass_ops": 0, "accepted": 0, "noleg": 0, "nontrivial": set(),
+    res = {"runs": len(lines), "stress_streams": sinfo, "ops": 0, "best_ops": 0, "pass_ops": 0, "accepted": 0, "noleg": 0, "nontrivial": set(),
            "model_mismatch": [], "value_fail": [], "mono_fail": [], "legal_fail": [], "check_fail": [], "throw_fail": [], "crash": [],
            "lines": lines, "impl": impl, "op_kinds": {},
            # the 2^31 streams: runs whose optimised value is >= 2^31 at construction; reordering ops (type 6 with maxNbCells >= 2, type 8
@@ -264,5 +269,6 @@ def summary(res):
     d = {k: res[k] for k in ("runs", "noleg", "ops", "best_ops", "pass_ops", "accepted", "op_kinds", "runs_value_ge_2p31", "runs_value_ge_2p32",
                              "reordering_ops_at_value_ge_2p31", "reordering_ops_at_value_ge_2p31_changing_placement")}
     d["shift_lp"] = lp_summary(res["lp"])
+    d["stress_streams"] = res.get("stress_streams", {})
     d["net_weights"] = weight_summary([split_do(l)[1] for l in res["lines"]])
     return d
